@@ -24,6 +24,7 @@ class Check(PropertyCheck):
         return ImplGen()
 
     def generate(self, rng, n, tier):
+        yield Scenario(["new", f"mark crossproc {rng.randint(0, 10**6)}"], {"kind": "seed"})
         for i in range(n):
             if i % 5 == 4:
                 yield Scenario(["new", f"mark seeds {rng.choice([0, 0, 1, rng.randint(0, 10**6), rng.randint(0, 10**6)])}"],
@@ -81,6 +82,30 @@ class Check(PropertyCheck):
                 res.append(("names", f"names reused: {names}"))
             for inst in insts:
                 res += self.shape(inst, j1, j2, m1, m2, d1, d2, al, rc, k1, k2)
+        elif line.startswith("mark crossproc"):
+            # same seed, same parameters, ANOTHER interpreter process (other hash randomisation): the same instances
+            import json as _json
+            import os as _os
+            import subprocess as _sp
+            import sys as _sys
+            import jsl as _jsl
+            seed = int(line.split()[2])
+            repo_root = _os.path.dirname(_os.path.dirname(_os.path.abspath(_jsl.job_shop_lib.__file__)))
+            code = ("import json,sys\n"
+                    "from job_shop_lib.generation import GeneralInstanceGenerator\n"
+                    f"g = GeneralInstanceGenerator(num_jobs=(3, 5), num_machines=(2, 4), duration_range=(1, 9), seed={seed})\n"
+                    "print(json.dumps([[i.name, i.durations_matrix, i.machines_matrix] for i in (g.generate() for _ in range(3))]))\n")
+            outs_ = []
+            for hs in ("1", "2"):
+                env = dict(_os.environ, PYTHONHASHSEED=hs, PYTHONPATH=repo_root)
+                r_ = _sp.run([_sys.executable, "-c", code], capture_output=True, text=True, env=env, timeout=120, check=False)
+                outs_.append(r_.stdout.strip() if r_.returncode == 0 else f"failed: {r_.stderr[-300:]}")
+            from impl_ext import GeneralInstanceGenerator
+            g = GeneralInstanceGenerator(num_jobs=(3, 5), num_machines=(2, 4), duration_range=(1, 9), seed=seed)
+            here = _json.dumps([[i.name, i.durations_matrix, i.machines_matrix] for i in (g.generate() for _ in range(3))])
+            if outs_[0] != outs_[1] or outs_[0] != here:
+                res.append(("seed-cross-process", f"a generator with seed {seed} produced different instances in different interpreter processes "
+                            f"(PYTHONHASHSEED 1 / 2 / this process): {outs_[0][:120]} | {outs_[1][:120]} | {here[:120]}"))
         elif line.startswith("mark seeds"):
             from impl_ext import GeneralInstanceGenerator
             seed = int(line.split()[2])
